@@ -95,6 +95,9 @@ func (d *Ar) Next() (*ArEntry, error) {
 	if err != nil {
 		return nil, err
 	}
+	if entry.Size < 0 {
+		return nil, fmt.Errorf("Malformed file entry: negative size %d", entry.Size)
+	}
 
 	entry.Data = io.NewSectionReader(d.in, d.offset+int64(count), entry.Size)
 	d.offset += int64(count) + entry.Size + (entry.Size % 2)
